@@ -17,6 +17,7 @@ Line driver for the scheduler model (C15). Ops (see `harness/cmd/drive-sched/mai
   fire <slot>                 the parked attester trigger of the slot proceeds (if due)
   head <slot> <root> <addr>   SSE head event
   getdef <slot> <type>        GetDutyDefinition
+  headrace <nval> <k>         head events racing with resolveDuties in a child process (always `ok`)
   probe <slot> <type> [<k>]   GetDutyDefinition is called from inside the (k+1)-th attester-duties call from now
 -/
 open CharonV.Sched
@@ -284,6 +285,12 @@ def step (d : DState) (line : String) : DState × String :=
         | some f => s!"F{f.slot}@{root}/{addr}" ++ defsStr f.defs
         | none => "-"
       ({ d with hs := hs }, out ++ " | " ++ digest d.cfg hs)
+    | _, _ => (d, "bad-op")
+  | ["headrace", a, k] =>
+    -- self-contained racing op (own scheduler in a child process): every interleaving is acceptable, nothing of
+    -- the episode is touched; only the monitor (the process must survive) speaks
+    match a.toNat?, k.toNat? with
+    | some _, some _ => (d, "ok")
     | _, _ => (d, "bad-op")
   | ["getdef", a, t] =>
     match a.toNat?, t.toNat? with
